@@ -300,6 +300,18 @@ impl ZchState {
                 return kb.press_key(osc);
             }
             osc if osc.is_zippy_ignored() => {
+                if matches!(
+                    osc,
+                    OsCode::KEY_LEFTCTRL
+                        | OsCode::KEY_RIGHTCTRL
+                        | OsCode::KEY_LEFTALT
+                        | OsCode::KEY_LEFTMETA
+                        | OsCode::KEY_RIGHTMETA
+                ) {
+                    // A shortcut is being typed. If its key is smart-space punctuation, erasing
+                    // the smart space would send e.g. Ctrl+Backspace, which deletes a whole word.
+                    self.zchd.zchd_smart_space_state = ZchSmartSpaceState::Inactive;
+                }
                 if matches!(osc, OsCode::KEY_BACKSPACE | OsCode::KEY_DELETE) {
                     // The user edits the text themself: what zippychord typed earlier is no
                     // longer known to be in front of the cursor. Following punctuation must not
